@@ -50,6 +50,10 @@ def c13(tier, seed, replay=None):
                     why.append("%s: observed %s, algebra gives %s" % (k, o.get(k), c[k]))
             if o.get("mut_add3") != c["add3"]:
                 why.append("mut_add accumulation gives %s, addition gives %s" % (o.get("mut_add3"), c["add3"]))
+            if o.get("mut_add_xy") != c["add"]:
+                why.append("mut_add(x, y) into a caller-built vector gives %s, x + y is %s" % (o.get("mut_add_xy"), c["add"]))
+            if not o.get("y_intact"):
+                why.append("mut_add(x, y) wrote into y")
             if not o.get("fresh"):
                 why.append("mut_add(None, x) is not a fresh copy of x")
             if not o.get("x_intact"):
